@@ -425,9 +425,15 @@ impl<'a> push_decoder::Listener for PushListener<'a> {
                 let spendable_htlc_indices = if htlc_indices.is_empty() {
                     Vec::new()
                 } else {
+                    // The commitment may be one we no longer have the details of (e.g. a
+                    // revoked counterparty commitment).  Do not abort: watch all of its HTLC
+                    // outputs, which is the conservative choice.
                     provider
                         .get_spendable_htlc_indices(&closing_tx, commitment_number)
-                        .expect("valid spendable HTLC indices for a decoded commitment transaction")
+                        .unwrap_or_else(|e| {
+                            warn!("could not determine spendable HTLC outputs of {}: {:?}", txid, e);
+                            htlc_indices.clone()
+                        })
                 };
                 debug!(
                     "our_output_index: {:?}, htlc_indices: {:?}, spendable_htlc_indices: {:?}",
